@@ -28,6 +28,7 @@ import time
 from typing import Any, Dict, List, Optional, Tuple
 
 import c09_gen as g
+import lexstage
 import pyside
 from vlib import VERIF, Broken, Check, clist, run_workers
 
@@ -817,6 +818,7 @@ def run(ck: Check) -> None:
     if lex_metas and "lex" in box:
         samples.append({"t2_case": {k: v for k, v in lex_metas[20].items()}, "lexer_observed": box["lex"][20]})
     cov["samples"] = samples
+    lexstage.lex_stage(ck, "C09_lex.v", 1, 8, "C09")    # text level: the tokenizer (tools/lexstage.py)
     # the LR driver on the validated tables: no IndexError/KeyError, linear fuel bound (tools/lrstage.py)
     import lrstage
     lrstage.lr_stage(ck, "C09_lr.v", lrstage.QUICK_C09, lrstage.THOROUGH_C09, "lr")
